@@ -451,9 +451,12 @@ public:
         if (hasDataFrame(name)) {
             throw DuplicateName("createDataFrame");
         }
+        if (cols.empty()) {
+            throw std::invalid_argument("Block::createDataFrame: a DataFrame needs at least one column");
+        }
         std::set<std::string> names;
         for (const Column &c : cols) {
-            if (!Variant::supports_type(c.dtype)) {
+            if (!Variant::supports_type(c.dtype) || c.dtype == DataType::Nothing) {
                 std::string msg = "Incompatible DataType for column ";
                 throw std::invalid_argument(msg + c.name);
             }
